@@ -98,7 +98,7 @@ func supported(form string) bool {
 }
 
 var legalNames = []string{"a", "b", "c", "d", "e", "f", "A", "a b", "a,b", "ä", "x'", "'x", "\xff\xfe", "col\"q", "1", " "}
-var illegalNames = []string{"", "'abc'", "\"abc\"", "$x", "$", "'a b'", "'a\nb'", "\"a\nb\"", "'\xff'", "\"'\"", "'\n'", "$\n"}
+var illegalNames = []string{"", "'abc'", "\"abc\"", "$x", "$", "'a b'", "'a\nb'", "\"a\nb\"", "'\xff'", "\"'\"", "'\n'", "$\n", "''a'", "\"a\"\"", "'''", "''a''", "\"\"\"", "'a'b'"}
 
 func genNewCol(t *rapid.T, name string, n int, wide bool) newCol {
 	c := newCol{Name: name, Len: n}
